@@ -276,6 +276,10 @@ func keyC13(c C13Case) []byte {
 	return append(k, c.Data...)
 }
 
-func TestC13(t *testing.T) {
-	Run(t, Prop[C13Case]{ID: "C13", Gen: genC13, Exhaustive: exhaustiveC13, Check: checkC13, Key: keyC13})
+func propC13() Prop[C13Case] {
+	return Prop[C13Case]{ID: "C13", Gen: genC13, Exhaustive: exhaustiveC13, Check: checkC13, Key: keyC13}
 }
+
+func TestC13(t *testing.T) { Run(t, propC13()) }
+
+func FuzzGenC13(f *testing.F) { RunFuzz(f, propC13()) }
